@@ -114,4 +114,89 @@ theorem div_ne_zero (x y : Rat) (hx : x ≠ 0) (hy : y ≠ 0) : F64.div x y ≠ 
 
 theorem div_zero_left (y : Rat) : F64.div 0 y = 0 := by simp [F64.div, round]
 
+/-! ### rounding is exact on representable numbers -/
+
+theorem pow2_add (i j : Int) : pow2 (i + j) = pow2 i * pow2 j := by
+  rw [pow2_eq_zpow, pow2_eq_zpow, pow2_eq_zpow, zpow_add₀ (by norm_num : (2 : Rat) ≠ 0)]
+
+theorem pow2_lt_iff {i j : Int} : pow2 i < pow2 j ↔ i < j := by
+  rw [pow2_eq_zpow, pow2_eq_zpow]
+  exact zpow_lt_zpow_iff_right₀ (by norm_num)
+
+theorem pow2_natCast (n : Nat) : pow2 (n : Int) = ((2 ^ n : Nat) : Rat) := by
+  rw [pow2_eq_zpow, zpow_natCast]; push_cast; rfl
+
+/-- a positive number `M·2^k` with `M < 2^53` is a double: rounding returns it unchanged -/
+theorem round_exact_pos (M : Nat) (k : Int) (hM0 : 0 < M) (hM : M < 2 ^ 53) : round ((M : Rat) * pow2 k) = (M : Rat) * pow2 k := by
+  have hMr : (0 : Rat) < (M : Rat) := by exact_mod_cast hM0
+  have hq : (0 : Rat) < (M : Rat) * pow2 k := mul_pos hMr (pow2_pos k)
+  unfold round
+  have hne : ¬ ((M : Rat) * pow2 k = 0) := hq.ne'
+  have hnl : ¬ ((M : Rat) * pow2 k < 0) := not_lt.2 hq.le
+  simp only [hne, hnl, if_false]
+  set a := (M : Rat) * pow2 k with ha
+  set e := ilog2 a with he
+  -- e - 52 ≤ k
+  have hle : pow2 e ≤ a := pow2_ilog2_le a hq
+  have hlt : a < pow2 (53 + k) := by
+    rw [pow2_add, ha]
+    have : (M : Rat) < pow2 53 := by
+      have h53 : pow2 53 = ((2 ^ 53 : Nat) : Rat) := pow2_natCast 53
+      rw [h53]; exact_mod_cast hM
+    exact mul_lt_mul_of_pos_right this (pow2_pos k)
+  have hek : e < 53 + k := pow2_lt_iff.1 (lt_of_le_of_lt hle hlt)
+  obtain ⟨n, hn⟩ : ∃ n : Nat, (n : Int) = k - (e - 52) := ⟨(k - (e - 52)).toNat, by omega⟩
+  have hsplit : pow2 k = pow2 (e - 52) * pow2 (n : Int) := by
+    rw [← pow2_add]; congr 1; omega
+  have hp := pow2_pos (e - 52)
+  have hmant : a / pow2 (e - 52) = (((M * 2 ^ n : Nat) : Int) : Rat) := by
+    rw [ha, hsplit, pow2_natCast]
+    field_simp
+    push_cast
+    ring
+  have hfl : (a / pow2 (e - 52)).floor = ((M * 2 ^ n : Nat) : Int) := by
+    show ⌊a / pow2 (e - 52)⌋ = _
+    rw [hmant]
+    exact Int.floor_intCast _
+  rw [hfl]
+  have hfrac : a / pow2 (e - 52) - ((((M * 2 ^ n : Nat) : Int)) : Rat) = 0 := by rw [hmant]; ring
+  rw [hfrac]
+  have h1 : ¬ ((0 : Rat) > 1 / 2) := by norm_num
+  have h2 : (0 : Rat) < 1 / 2 := by norm_num
+  simp only [h1, h2, if_false, if_true]
+  rw [← hmant]
+  field_simp
+
+/-- every `m·2^k` with `|m| < 2^53` is a double -/
+theorem round_exact (m : Int) (k : Int) (hm : m.natAbs < 2 ^ 53) : round ((m : Rat) * pow2 k) = (m : Rat) * pow2 k := by
+  rcases lt_trichotomy m 0 with hneg | hz | hpos
+  · -- negative: round is odd
+    have hM0 : 0 < m.natAbs := by omega
+    have hpos := round_exact_pos m.natAbs k hM0 hm
+    have hcast : (m : Rat) = -((m.natAbs : Nat) : Rat) := by
+      have h : m = -((m.natAbs : Nat) : Int) := by omega
+      calc (m : Rat) = ((-((m.natAbs : Nat) : Int) : Int) : Rat) := by rw [← h]
+        _ = -((m.natAbs : Nat) : Rat) := by rw [Int.cast_neg, Int.cast_natCast]
+    have hq : (m : Rat) * pow2 k < 0 := by
+      rw [hcast]
+      have : (0 : Rat) < ((m.natAbs : Nat) : Rat) * pow2 k := mul_pos (by exact_mod_cast hM0) (pow2_pos k)
+      linarith
+    have hne : ¬ ((m : Rat) * pow2 k = 0) := hq.ne
+    have hneg' : -((m : Rat) * pow2 k) = ((m.natAbs : Nat) : Rat) * pow2 k := by rw [hcast]; ring
+    -- unfold both and compare
+    unfold round at hpos ⊢
+    have hne2 : ¬ (((m.natAbs : Nat) : Rat) * pow2 k = 0) := by rw [← hneg']; intro h; apply hne; linarith
+    have hnl2 : ¬ (((m.natAbs : Nat) : Rat) * pow2 k < 0) := by rw [← hneg']; linarith
+    simp only [hne2, hnl2, if_false] at hpos
+    simp only [hne, hq, if_true, if_false, hneg']
+    rw [hpos, ← hneg']; ring
+  · subst hz; simp [round]
+  · have hM0 : 0 < m.natAbs := by omega
+    have := round_exact_pos m.natAbs k hM0 hm
+    have hcast : (m : Rat) = ((m.natAbs : Nat) : Rat) := by
+      have h : m = ((m.natAbs : Nat) : Int) := by omega
+      calc (m : Rat) = ((((m.natAbs : Nat) : Int) : Int) : Rat) := by rw [← h]
+        _ = ((m.natAbs : Nat) : Rat) := by rw [Int.cast_natCast]
+    rw [hcast]; exact this
+
 end Mingus.F64
